@@ -11,6 +11,7 @@ import (
 	"encoding/json"
 	"fmt"
 	"math/rand"
+	"os"
 	"path"
 	"sort"
 	"strings"
@@ -315,6 +316,9 @@ func (e *env) checkRequest(c *vh.Ctx, br *baseReq, param string, r *rand.Rand, s
 				same := len(pf) == len(bf)
 				for _, n := range sortedKeys(bf) {
 					if !strings.HasSuffix(n, ".meta") && pf[n] != bf[n] {
+						if same {
+							c.R.Notes = appendNote(c.R.Notes, "harness binary vs plugin binary (not a failure): "+br.label+" "+n+": "+head(firstDiff(bf[n], pf[n]), 220))
+						}
 						same = false
 					}
 				}
@@ -513,6 +517,14 @@ func runC40(c *vh.Ctx) {
 		nl = len(linked)
 	}
 	reqs := append([]*baseReq{}, linked[:nl]...)
+	if only := os.Getenv("VERIF_GEN_ONLY"); only != "" { // development aid: restrict to one linked Go package
+		reqs = nil
+		for _, br := range linkedRequests() {
+			if strings.Contains(br.label, only) {
+				reqs = append(reqs, br)
+			}
+		}
+	}
 	nlinked := len(reqs)
 	reqs = append(reqs, randomRequests(c, c.N(5, 25))...)
 	// thorough tier: ALL parameter combinations for a seed-dependent fifth of the requests (at least 5 multi-file
